@@ -1,5 +1,6 @@
 import ChiaModel.Lemmas.Builders
 import ChiaModel.Gen.Builder
+import ChiaModel.Props.C04
 /-
 C10 — block builders emit exactly the accepted bundles within the cost limit.
 
@@ -346,5 +347,29 @@ example : isAdded ((ISt.init 12000 (20 + 11 * 12000 + 20 * 12000 + 6000000)).ste
   ∧ isAdded ((ISt.init 12000 (20 + 11 * 12000 + 20 * 12000 + 6000000 - 1)).step
     { bundles := [{ spends := [{ parent := [1], puzzle := .atom [1], amount := 1, solution := Sexp.nil }], sigTag := 1 }], cost := 6000000 }).2 = false := by
   decide
+
+/-! ## the cost `finalize` returns is the consensus cost of the emitted generator -/
+
+/-- **Consensus cost of the interned builder's block.**  Take any builder state whose accumulated
+block cost is the quote's 20 plus a total `D` of declared costs.  If `run_block_generator2` (model
+`Gn.native`, under INTERNED_GENERATOR, same cost-per-byte) accepts the generator the builder emits
+— the generator run being the quote returning the spend list at cost 20 — and the declared costs were
+truthful in total, i.e. `D` = execution cost of the puzzles + condition cost of that very run, then the
+cost `finalize` computes equals the cost consensus validation charges for the block (no wrap-around:
+the sum stays below 2^64).  The decomposition of the consensus cost is C04 `native_cost_decomposition`. -/
+theorem interned_consensus_cost (s : ISt) (D : Nat) (p : Params) (g : GenInput) (puz : Nat → RunRes) (L : Nat) (b : Cond.Bundle)
+    (hflag : Cond.hasFlag p.flags Gen.flagInternedGenerator = true) (hcpb : p.costPerByte = s.cpb)
+    (hprog : g.prog = generator s.spends) (hblock : s.blockCost = quoteCost + D)
+    (hrun : native p g (some (quoteCost, .pair (Sexp.ofList s.spends) Sexp.nil)) puz L = .ok b)
+    (htruth : quoteCost + D = b.executionCost + b.conditionCost)
+    (hsmall : internedVbytes (generator s.spends) * s.cpb + s.blockCost < W) :
+    s.finalCost = b.cost := by
+  have hd := C04.native_cost_decomposition p g _ puz L b hrun
+  unfold nativeBase at hd
+  rw [if_pos hflag, hprog, hcpb] at hd
+  unfold ISt.finalCost wadd wmul
+  have h1 : internedVbytes (generator s.spends) * s.cpb < W := by omega
+  rw [Nat.mod_eq_of_lt h1, Nat.mod_eq_of_lt hsmall]
+  omega
 
 end ChiaModel.C10
